@@ -107,7 +107,8 @@ fn profile(opts: &Opts) -> TreeProfile {
 fn paths_of(opts: &Opts) -> Vec<String> {
     match opts.get("paths") {
         None => vec!["/".to_string()],
-        Some("hostile") => vec!["/".into(), "/dev/mdt0".into(), "/mnt/a b".into(), "q\"x".into(), "b\\s".into(), "trail\\".into(), "é~;(".into(), "/".into()],
+        Some("hostile") => vec!["/".into(), "/dev/mdt0".into(), "/mnt/a b".into(), "q\"x".into(), "q\\\"x".into(), "b\\s".into(), "b\\\\s".into(),
+                                "trail\\".into(), "c\u{1}d".into(), "c\\x01d".into(), "é~;(\u{2028}".into(), "/".into()],
         Some(p) => p.split(',').map(|s| s.to_string()).collect(),
     }
 }
@@ -144,7 +145,7 @@ pub fn compile_trees(opts: &Opts) -> i32 {
     for line in stdin.lock().lines() {
         let line = match line { Ok(l) => l, Err(_) => continue };
         let js = if line.starts_with('{') { line.clone() } else { match tlc_unquote(&line) { Some(j) => j, None => { if line.starts_with("Error") || line.contains("xception") { eprintln!("TLC {}", line); } continue; } } };
-        let mut v: Value = match serde_json::from_str(&js) { Ok(v) => v, Err(_) => continue };
+        let mut v: Value = match serde_json::from_str(&js) { Ok(v) => v, Err(e) => { eprintln!("BADJSON {}", e); continue; } };
         let t = match v.get("t").and_then(json_to_expr) { Some(t) => t, None => { eprintln!("BADTREE {}", js); continue; } };
         let o = v.get("o").and_then(json_to_opts).unwrap_or_default();
         let own_path: Option<Vec<String>> = v.get("path").and_then(from_cps).map(|p| vec![p]);
@@ -214,6 +215,14 @@ pub fn record_api(opts: &Opts) -> i32 {
             if failed && sleeps_left > 0 {
                 sleeps_left -= 1;
                 std::thread::sleep(std::time::Duration::from_millis(1100));
+                // probe: right after a refused compilation and a tick of the clock, compile an expression
+                // with time tests (always the same text: label 999999)
+                let probe = "-mmin -1 -o -amin +1 -o -ctime 3";
+                if let ParseOut::Ok(po, pt) = run_parse(probe) {
+                    let pc = run_compile(&pt, &po, &paths);
+                    seq += 1;
+                    emit(&mut out, &json!({"ev":"compile","proc":proc_id,"seq":seq,"eid":999999,"i":cps(probe),"t":expr_to_json(&pt),"o":opts_to_json(&po),"c":pc}));
+                }
             }
         }
     }
@@ -266,6 +275,18 @@ pub fn total_corpus(rng: &mut Rng, count: usize) -> Vec<String> {
                     1 => v.push(format!("{}-true", "! ".repeat(n))),
                     _ => v.push(format!("{}-print{}", "(".repeat(n), ")".repeat(n - rng.below(2)))),
                 }
+            }
+            5 if rng.chance(1, 6) => {
+                // many distinct resources: identifier counters beyond one byte (a name pattern takes two
+                // identifiers, a destination one); the nesting depth of the parse tree stays below the 255
+                // levels the JSON reader on the TLC side accepts
+                let names = 100 + rng.below(30);
+                let files = 60 + rng.below(40);
+                let tail = ["-print0", "-fprint out", "-print", "-fprintf f '%p'"][rng.below(4)];
+                let mut words: Vec<String> = vec![format!("( {} )", (0..names).map(|k| format!("-name n{}", k)).collect::<Vec<_>>().join(" -o "))];
+                if rng.chance(2, 3) { words.extend((0..files).map(|k| format!("-fprint f{}", k))); }
+                words.push(tail.to_string());
+                v.push(words.join(" "));
             }
             5 => {
                 // long inputs up to 4 KiB
